@@ -137,6 +137,22 @@ where
 {
 }
 
+/// Removes the (possibly stale) output file when dropped, unless `keep` has been set. Used so that
+/// a build which fails after it has claimed its output path never leaves a generated file from an
+/// earlier grammar behind.
+struct RemoveOutputOnFailure<'a> {
+    outp: &'a Path,
+    keep: bool,
+}
+
+impl Drop for RemoveOutputOnFailure<'_> {
+    fn drop(&mut self) {
+        if !self.keep {
+            fs::remove_file(self.outp).ok();
+        }
+    }
+}
+
 /// A string which uses `Display` for it's `Debug` impl.
 struct ErrorString(String);
 impl fmt::Display for ErrorString {
@@ -721,6 +737,12 @@ where
             }
             lk.insert(outp.clone());
         }
+        // From here on this builder owns `outp`: whatever goes wrong (including a panic), a file
+        // generated from an earlier version of the grammar must not survive a failed build.
+        let mut stale_output = RemoveOutputOnFailure {
+            outp: outp.as_path(),
+            keep: false,
+        };
 
         let inc = if let Some(grammar_src) = &self.grammar_src {
             grammar_src.clone()
@@ -874,14 +896,16 @@ where
                     && let Ok(outc) = read_to_string(outp)
                 {
                     if outc.contains(&cache.to_string()) {
-                        return Ok(CTParser {
+                        let ctp = CTParser {
                             regenerated: false,
                             rule_ids,
                             yacc_grammar: grm,
                             grammar_src: inc,
                             grammar_path: self.grammar_path.unwrap(),
                             conflicts: None,
-                        });
+                        };
+                        stale_output.keep = true;
+                        return Ok(ctp);
                     } else {
                         #[cfg(grmtools_extra_checks)]
                         if std::env::var("CACHE_EXPECTED").is_ok() {
@@ -982,14 +1006,16 @@ where
                 } else {
                     None
                 };
-                Ok(CTParser {
+                let ctp = CTParser {
                     regenerated: true,
                     rule_ids,
                     yacc_grammar: grm,
                     grammar_src: inc,
                     grammar_path: self.grammar_path.unwrap(),
                     conflicts,
-                })
+                };
+                stale_output.keep = true;
+                Ok(ctp)
             }
         }
     }
